@@ -39,6 +39,15 @@ class SolverzCodePrinter(PythonCodePrinter):
             return repr(float(expr))
         return super()._print_Float(expr)
 
+    def _print_Pow(self, expr, rational=False):
+        # numpy refuses an integer-typed array to a negative integer power and numba evaluates it in integers
+        # (2**-2 == 0): with a float exponent integer-typed and float-typed arrays give the same float power
+        if expr.exp.is_Integer and expr.exp.is_negative and expr.exp != -1:
+            from sympy.printing.precedence import PRECEDENCE
+            base = self.parenthesize(expr.base, PRECEDENCE['Pow'], strict=False)
+            return f'{base}**({float(expr.exp)!r})'
+        return super()._print_Pow(expr, rational=rational)
+
 
 def pycode(expr, **settings):
     return SolverzCodePrinter(settings).doprint(expr)
